@@ -9,6 +9,31 @@ ASSEMBLY_OVERLAY = {
     "internal/zzverif/assembly/listeners.go": "assembly/listeners.go",
 }
 
+def _more_samples():
+    """one observed case per kind of the stream (the generic sampler only sees the corpus, which runs first)"""
+    import json
+    import os
+    import vf
+    p = os.path.join(vf.OUT, "C09", "obs_entrypoints.jsonl")
+    want = {"generated-trusted-proxy": lambda o: o["stream"] == "generated" and "trust:trusted" in o["tags"] and "mode:proxy" in o["tags"],
+            "generated-untrusted": lambda o: o["stream"] == "generated" and "trust:untrusted" in o["tags"] and o.get("nontrivial"),
+            "socket": lambda o: o["stream"] == "socket" and o.get("nontrivial"),
+            "history": lambda o: o["stream"] == "history" and "history:trusted-and-untrusted-peers-on-one-instance" in o["tags"]}
+    out = {}
+    if os.path.exists(p):
+        for line in open(p):
+            if len(out) == len(want):
+                break
+            try:
+                o = json.loads(line)
+            except ValueError:
+                continue
+            for k, f in want.items():
+                if k not in out and f(o):
+                    out[k] = {"in": o["in"], "obs": o["obs"]}
+    return {"samples_by_kind": out}
+
+
 P = {
     "id": "C09",
     "coq_targets": ["Properties/C09.vo", "Run/Eval_C09.vo", "C09/Coherence.vo"],
@@ -59,7 +84,9 @@ P = {
         "sensitive and the case-insensitive reading of method/scheme/host; the theorems are about the request view",
         "whole-observation results computed by the driver in Go, not in Coq: `pair` (sinks that differ from the request without the "
         "seven headers; log lines: access log, request dump, 'Forwarding request' only, volatile fields removed) and `leaks` (sinks in "
-        "which a piece >= 5 bytes of a forwarded value surfaced that the partner request does not show)",
+        "which a piece >= 5 bytes of a forwarded value surfaced that the partner request does not show); 'path' in every theorem "
+        "is the escaped path (v_rawpath): that URL.Path = PathUnescape(RawPath) and that URL.String() is made of the shown "
+        "components is one driver boolean (ov_ok, computed in Go)",
         "httputil.ReverseProxy removes Forwarded/X-Forwarded-For/-Host/-Proto from the outgoing request when Rewrite is set (modelled as a "
         "step); hop-by-hop header removal and pipeline headers are outside the model (only the seven names are compared at the upstream, "
         "list values up to separators, the fresh Forwarded element up to parameter order/quoting)",
@@ -74,15 +101,23 @@ P = {
                   "request line, no line named like one of the seven is visible or passed on, the upstream gets one fresh Forwarded header, "
                   "and two requests differing only in such lines are served identically (2-safety); for a listed peer each present non-empty "
                   "header sets its component, the rest falls back to the actual request, and a component depends on no header but its own "
-                  "(frame theorem); the client list is stated with independent characterisations of Split/TrimSpace. No guard: finding "
+                  "(frame theorem); the X-Forwarded-For client list is stated exactly, with independent characterisations of "
+                  "Split/TrimSpace; for Forwarded the client entries are stated as a CLASS only (each entry is \"\" or the value of some "
+                  "for= parameter of its element; which parameter wins and when \"\" results is not stated - exact values only through the "
+                  "model comparison); Forwarded's proto=/host= never override anything (its component is the client list only). No guard: finding "
                   "C09-F1 was repaired by fix: e501d3a; the pinned loader survives only in the witnesses C09_F1_pinned_refuted / "
-                  "C09_F1_pinned_noninterference_refuted. One instance serving a history of requests is modelled without state; "
-                  "C09_history_pointwise / C09_history_untrusted say that the i-th request gets what it would get alone, whatever was "
-                  "served before. 11 property theorems + 2 witnesses. The model is tied to the code by ~1800 (quick) / "
-                  "40000 (thorough) generated requests per run through the real assembled decision and proxy applications; inside Coq the "
-                  "model's prediction is compared on the projections the property names, and a predicate written from the specification "
-                  "alone (incl. the driver's 2-safety pair and taint results over the complete observation) is evaluated on the "
-                  "implementation's output; C09/Coherence.v proves that this predicate holds whenever the prediction does.",
+                  "C09_F1_pinned_noninterference_refuted. 13 listed theorems: 8 property theorems (C09_trust_is_membership, _configured, C09_untrusted_noninterference, "
+                  "_connection_only, _not_passed_on, C09_trusted_overrides, _exactly_its_component, and C09_upstream_forwarding_is_composed, "
+                  "which is a supporting lemma about the model's upstream step for an arbitrary header list, not stated on the entry "
+                  "point), 1 model-totality theorem (C09_contains_never_panics), 2 corollaries of the stateless instance model "
+                  "(C09_history_pointwise / C09_history_untrusted; `run_instance = map handle`, so they hold by definition - that "
+                  "instances ARE stateless is what the history stream checks, not what Coq proves), 2 witnesses. The model is tied to the code by ~2000 cases per quick run (n = 1800: 1760 generated single requests + 40 over "
+                  "sockets; plus n/12 = 150 histories of 2-6 requests and a corpus of 42 single cases + 8 histories) / n = 40000 thorough, "
+                  "through the real assembled decision and proxy applications; inside Coq the model's prediction is compared on the "
+                  "projections the property names, and a predicate written from the specification is evaluated on the implementation's "
+                  "output: the view half in Coq; the upstream/log/response half of the untrusted predicate is the driver's pair/leaks "
+                  "verdict computed in Go, Coq only checks that it is empty. C09/Coherence.v (check_coherent, check_history_coherent; "
+                  "supporting lemmas, Print Assumptions closed, not counted) proves that this predicate holds whenever the prediction does.",
     "level_note": "Trusted: Coq kernel/vm_compute; the correspondence harness (pair/taint comparison is Go code); IP/CIDR/host:port/URL/HTTP "
                   "parsing are oracles (observed answers as case data, `net_ok` re-checked per case); rule matching reduced to the harness's "
                   "literal rule set; header values ASCII (strings.TrimSpace modelled for ASCII white space only). What a trusted peer's "
@@ -92,11 +127,19 @@ P = {
                   "refuses is used as received, cut at the first '?' (fix: d3f6cd7), the predicate also accepts ignoring it. NOT covered: the Envoy ext_authz entry "
                   "point (grpcv3/request_context.go takes the client list from x-forwarded-for metadata with no trust test; the statement "
                   "names decision and proxy mode; see C13), configuration by environment variables (C20), TLS/HTTP/2 on real sockets, "
-                  "non-ASCII header values, state that only shows after more than 6 requests on one instance or under concurrency "
+                  "non-ASCII header values, pipeline headers winning over the forwarding block at the upstream (rewriteRequest tail, C15), "
+                  "keep-alive reuse of one connection (socket cases always send Connection: close), state that only shows after more than 6 requests on one instance or under concurrency "
                   "(histories are short and sequential). C09-F1 is fixed (fix: e501d3a = fixes/C09-F1.diff); the evaluator runs the repaired variant of the "
                   "model (`check true`), so a regression is an ordinary VIOLATION (corpus cases 0, 1, 21, 22 are the former witnesses). "
-                  "Examples (hypotheses satisfiable) are compiled with Properties/C09.v but not counted as theorems.",
+                  "Seeded changes: 6/6 caught, one of them (seeded/C09-9, a stateful 'last trusted peer' short cut) only after rework - it "
+                  "escaped the first run and is caught since the history stream was added. Examples (hypotheses satisfiable) are compiled with Properties/C09.v but not counted as theorems.",
+    "extra_coverage": _more_samples,
     "assumptions": [
+        "the decision (matched rule, pipeline outcome) depends on the request only through the view (method, scheme, host, path, query, "
+        "client list, headers the middleware left); not modelled (C02/C03/C04), tied in only by the stream's rule/pair/leaks comparison "
+        "against seven literal rules",
+        "reading of 'each present header overrides exactly its component': the component of Forwarded is the client list only (its "
+        "proto= / host= parameters override nothing); X-Forwarded-For is used only when Forwarded is absent or empty",
         "header values are ASCII (Go's TrimSpace also trims Unicode white space; not modelled)",
         "header names are tokens (net/http rejects other header lines before heimdall sees the request)",
         "X-Forwarded-Path is deleted for untrusted peers but never read by heimdall (no component to override)",
